@@ -47,13 +47,21 @@ M.loop(P_SYM + ':is_symbol_name', 0,
        invariant=lambda _i, s: 0 <= _i and _i <= len(s) and all_chars(s[:_i], ident_char),
        modifies=dict(i='local', ch='local'))
 
+def ident_run(t):
+    """the longest prefix of t that consists of identifier characters"""
+    from itertools import takewhile
+    return ''.join(takewhile(ident_char, t))
+
+
 M.contract(P_SYM + ':_extract_symbol_name', params=dict(s=Str, start_idx=Nat),
            requires=lambda s, start_idx: start_idx <= len(s),
            returns=Str,
            ensures={
+               'is-the-identifier-run': lambda s, start_idx, result: result == ident_run(s[start_idx:]),
                'is-prefix-of-rest': lambda s, start_idx, result:
                start_idx + len(result) <= len(s) and s[start_idx:start_idx + len(result)] == result,
-               'identifier-characters': lambda result: all_chars(result, ident_char),
+               'identifier-characters': lambda s, start_idx, result:
+               all_chars(result, ident_char) and all_chars(s[start_idx:start_idx + len(result)], ident_char),
                'maximal': lambda s, start_idx, result:
                start_idx + len(result) == len(s)
                or not ident_char(s[start_idx + len(result):start_idx + len(result) + 1]),
@@ -92,6 +100,20 @@ M.contract(P_SYM + ':parse_maybe_symbol_reference', params=dict(unquoted_token_s
 # ------------------------------------------------------------------------------ symbol_syntax: finding references
 
 FOUND = FixedList(Int, Str, Str, as_tuple=True)
+
+
+def ref_starts_at(s, k):
+    """a symbol reference  @[NAME]@  starts at position k of s.  NAME is the maximal run of identifier
+    characters after `@[` (']' is not an identifier character, so no shorter NAME can be followed by `]@`)."""
+    if not (0 <= k and k + 2 <= len(s)):
+        return False
+    if s[k:k + 1] != '@':
+        return False
+    if s[k + 1:k + 2] != '[':
+        return False
+    name = ident_run(s[k + 2:])
+    return name != '' and s.startswith(']@', k + 2 + len(name))
+
 
 M.contract(P_SYM + ':_find_symbol_reference', params=dict(s=Str), returns=FOUND,
            ensures={
@@ -1124,3 +1146,76 @@ M.loop(P_GP + ':ElementsUntilEndOfLineParser2.parse', 0,
        and ts_inv(token_parser._token_stream),
        modifies={**_TS_FRAME, 'ret_val': MListOf(Str), 'sym_name_or_element': 'local',
                  'ghost:consumed': MListOf(Str)})
+
+
+# ------------------------------------------------------------------------------ bounded stand-in: leftmost references
+# "References are substituted everywhere": a constant fragment must not contain the start of a complete reference.
+# Conservation, well-formedness, separation and termination of `split` are proved above; that the reference
+# found is the LEFTMOST one was not brought within reach deductively (a position-indexed invariant over an
+# arbitrary position needs a case split over the string pieces per iteration; the path count exploded -- see
+# notes/C09.md), so this clause is checked exhaustively up to a bound against an independent left-to-right reader.
+
+def reference_split(s):
+    """The documented syntax: scanning from the left, `@[NAME]@` with NAME a non-empty sequence of alphanumeric
+    characters and underscores is a symbol reference; every other character is constant text."""
+    out = []
+    const = ''
+    i = 0
+    while i < len(s):
+        j = i + 2
+        while s[i:i + 2] == '@[' and j < len(s) and (s[j].isalnum() or s[j] == '_'):
+            j += 1
+        if s[i:i + 2] == '@[' and j > i + 2 and s[j:j + 2] == ']@':
+            if const:
+                out.append((const, False))
+                const = ''
+            out.append((s[i + 2:j], True))
+            i = j + 2
+        else:
+            const += s[i]
+            i += 1
+    if const:
+        out.append((const, False))
+    return out
+
+
+_SPLIT_REPLAY = """
+from exactly_lib.symbol import symbol_syntax
+from contracts.C09_strings import reference_split
+s = %r
+actual = [(f.value, f.is_symbol) for f in symbol_syntax.split(s)]
+print('split     :', actual)
+print('reference :', reference_split(s))
+sys.exit(1 if actual != reference_split(s) else 0)
+"""
+
+
+@M.bounded('symbol_syntax.split (leftmost references)')
+def _bounded_split(ctx):
+    import itertools
+    alphabet = '@[]a_-é'
+    max_len = 8 if ctx.tier == 'thorough' else 6
+    failures = []
+    cases = 0
+    for n in range(0, max_len + 1):
+        for tup in itertools.product(alphabet, repeat=n):
+            s = ''.join(tup)
+            cases += 1
+            actual = [(f.value, f.is_symbol) for f in symbol_syntax.split(s)]
+            expected = reference_split(s)
+            # also: the declarative clause -- no constant fragment covers the start of a reference
+            off = 0
+            covered = None
+            for value, is_symbol in actual:
+                if not is_symbol:
+                    for k in range(off, off + len(value)):
+                        if ref_starts_at(s, k):
+                            covered = k
+                off += len(value) + (4 if is_symbol else 0)
+            if actual != expected or covered is not None:
+                failures.append({'input': s, 'expected': expected, 'actual': actual,
+                                 'replay': _SPLIT_REPLAY % s})
+    ctx.bounded_result('symbol_syntax.split', 'all strings of length <= %d over %r' % (max_len, alphabet), cases,
+                       exhaustive=True, failures=failures,
+                       note='fragments of the real split == independent left-to-right reader; no constant fragment '
+                            'covers a position where a complete reference starts')
